@@ -176,6 +176,13 @@ func genC16(c *Cfg, emit func([]string)) {
 			for j := 0; j < 2+c.Rng.Intn(6); j++ {
 				h = append(h, fmt.Sprintf("legacy %s %s %s %d", pick(kinds), pick(addrs), pick(tokens), 1+c.Rng.Intn(50)))
 			}
+			// sometimes ordinary writes of the same kinds come first (a chaincode upgraded to the
+			// indexing version keeps working before the migration call is made)
+			if c.Rng.Intn(2) == 0 {
+				for j := 0; j < 1+c.Rng.Intn(3); j++ {
+					h = append(h, fmt.Sprintf("add %s %s %s %s %s", pick([]string{"d", "b"}), pick(kinds), pick(addrs), pick(tokens), pick([]string{"1", "5", "10"})))
+				}
+			}
 			for _, k := range kinds {
 				h = append(h, "index "+k)
 			}
@@ -238,6 +245,6 @@ func genC16(c *Cfg, emit func([]string)) {
 		h = append(h, "owners "+bk[0]+" USD", "owners "+bk[0]+" EUR")
 		emit(h)
 	}
-	c.Rule = fmt.Sprintf("%d random histories of 3..%d add/sub/move operations (amounts incl. 0, -1, exactly-to-zero and back) over 3 addresses x 3 tokens (+ token-less balances) x 4 balance kinds, each executed either directly on the peer stub or through the batch+transaction cache layers; one third start from legacy data (primaries only) followed by createIndex for every kind; ListOwnersByToken compared with direct reads of every (kind, token, address) after random steps and for the full matrix at the end; createIndex's ledger diff restricted to balance keys; plus legacy data sets of 500..2000 records of one kind indexed at once and listed in full. non-trivial = contains a mutation; distinct = sha256", nHist, maxSteps+2)
+	c.Rule = fmt.Sprintf("%d random histories of 3..%d add/sub/move operations (amounts incl. 0, -1, exactly-to-zero and back) over 3 addresses x 3 tokens (+ token-less balances) x 4 balance kinds, each executed either directly on the peer stub or through the batch+transaction cache layers; one third start from legacy data (primaries only), sometimes followed by ordinary writes, then createIndex for every kind; ListOwnersByToken compared with direct reads of every (kind, token, address) after random steps and for the full matrix at the end; createIndex's ledger diff restricted to balance keys; plus legacy data sets of 500..2000 records of one kind indexed at once and listed in full. non-trivial = contains a mutation; distinct = sha256", nHist, maxSteps+2)
 	c.Extra = map[string]any{"histories": nHist}
 }
